@@ -34,6 +34,19 @@ for _f in (F_ML, F_CR):
             contains(L.visited, n) & (view(L.a, n) > view(L.b, n))))),
     ])
 
+# ---------------------------------------------------------------------------- ghost statements
+# BackupNode._handle_replicate: ghost bookkeeping of the newest write received per key, and the three
+# points the property speaks about (value handed to the store, acknowledgement)
+ghost(F_PB, "BackupNode._handle_replicate", "ack_future: SimFuture | None = metadata.get('ack_future')",
+      "_c17_backup_received(self, key, value, seq)")
+ghost(F_PB, "BackupNode._handle_replicate", "yield from self._store.put(key, value)",
+      "_c17_backup_put(self, key, value, seq)", where="before")
+ghost(F_PB, "BackupNode._handle_replicate", "ack_future.resolve(",
+      "_c17_backup_ack(self, key, value, seq)", where="before")
+
+# PrimaryNode._handle_write: ghost assertion before every acknowledgement of the client (three textual sites)
+ghost(F_PB, "PrimaryNode._handle_write", "reply_future.resolve(", "_c17_primary_reply(self, key, value, seq)", where="before*")
+
 from specs.common import *  # noqa: E402,F401
 
 import happysimulator.components.replication.multi_leader as _ml_mod  # noqa: E402
@@ -225,3 +238,483 @@ def _quorum_lemmas():
 
 
 lemma("quorum-intersection-arithmetic", _quorum_lemmas)
+
+# ============================================================================ C. messages, network, futures, stores
+# (types local to this property: event metadata - a heterogeneous dict with literal keys - as a record with a
+# presence set; same modelling as specs/C11.py)
+from pyvc.heap import Box, _default_of  # noqa: E402
+from happysimulator.components.network.network import Network  # noqa: E402
+from happysimulator.core.sim_future import SimFuture  # noqa: E402
+
+
+class RecFieldLoc:
+    def __init__(self, parent, rty, k):
+        self.parent, self.rty, self.k = parent, rty, k
+
+    def get(self):
+        return self.rty.acc(self.k)(self.parent.get())
+
+    def set(self, t):
+        self.parent.set(self.rty.rebuild(self.parent.get(), vals={self.k: t}))
+
+
+class Record(Ty):
+    """dict with literal string keys of fixed value types: presence set + one typed slot per key"""
+
+    def __init__(self, name, fields):
+        self.name, self.fields = name, dict(fields)
+        d = z3.Datatype("Rec_" + name)
+        d.declare("mk", ("has", z3.ArraySort(z3.StringSort(), z3.BoolSort())),
+                  *[("f_" + k, ty.sort()) for k, ty in self.fields.items()])
+        self.dt = d.create()
+
+    def sort(self):
+        return self.dt
+
+    def acc(self, k):
+        return getattr(self.dt, "f_" + k)
+
+    def has(self, term, k):
+        return z3.Select(self.dt.has(term), z3.StringVal(k))
+
+    def empty(self):
+        return self.dt.mk(z3.K(z3.StringSort(), z3.BoolVal(False)), *[_default_of(ty.sort()) for ty in self.fields.values()])
+
+    def rebuild(self, m, has=None, vals=None):
+        vals = vals or {}
+        return z3.simplify(self.dt.mk(has if has is not None else self.dt.has(m),
+                                      *[vals.get(k, self.acc(k)(m)) for k in self.fields]))
+
+    def wrap(self, term, loc=None):
+        return RecProxy(loc if loc is not None else Box(term), self)
+
+    def unwrap(self, v):
+        if isinstance(v, RecProxy) and v._ty is self:
+            return v._loc.get()
+        if isinstance(v, dict):
+            p = RecProxy(Box(self.empty()), self)
+            for k, x in v.items():
+                p[k] = x
+            return p._loc.get()
+        raise OutOfReach(f"{type(v).__name__} stored where record {self.name} is declared")
+
+
+class RecProxy:
+    def __init__(self, loc, ty):
+        self._loc, self._ty = loc, ty
+
+    @property
+    def term(self):
+        return self._loc.get()
+
+    def _key(self, k):
+        if not isinstance(k, str) or k not in self._ty.fields:
+            raise OutOfReach(f"key {k!r} is not declared in record {self._ty.name}")
+        return k
+
+    def _val(self, k):
+        return self._ty.fields[k].wrap(self._ty.acc(k)(self.term), RecFieldLoc(self._loc, self._ty, k))
+
+    def get(self, k, default=None):
+        k = self._key(k)
+        if not _ctx.cur().branch(self._ty.has(self.term, k), site="rec:" + k):
+            return default
+        return self._val(k)
+
+    def __getitem__(self, k):
+        k = self._key(k)
+        if not _ctx.cur().branch(self._ty.has(self.term, k), site="rec:" + k):
+            raise KeyError(k)
+        return self._val(k)
+
+    def __contains__(self, k):
+        return _ctx.cur().branch(self._ty.has(self.term, self._key(k)), site="rec:" + k)
+
+    def __setitem__(self, k, v):
+        k = self._key(k)
+        m = self.term
+        self._loc.set(self._ty.rebuild(m, has=z3.Store(self._ty.dt.has(m), z3.StringVal(k), z3.BoolVal(True)),
+                                       vals={k: self._ty.fields[k].unwrap(v)}))
+
+    def update(self, other):
+        if isinstance(other, dict):
+            for k, v in other.items():
+                self[k] = v
+            return
+        if isinstance(other, RecProxy) and other._ty is self._ty:
+            m, o, ty = self.term, other.term, self._ty
+            self._loc.set(ty.rebuild(m, has=z3.SetUnion(ty.dt.has(m), ty.dt.has(o)),
+                                     vals={k: z3.If(ty.has(o, k), ty.acc(k)(o), ty.acc(k)(m)) for k in ty.fields}))
+            return
+        raise OutOfReach("record.update with an unmodelled argument")
+
+    def __bool__(self):
+        return _ctx.cur().branch(self._ty.dt.has(self.term) != z3.K(z3.StringSort(), z3.BoolVal(False)), site="rec:bool")
+
+    def copy(self):
+        return RecProxy(Box(self.term), self._ty)
+
+    __hash__ = None
+
+
+# one record type for every message of the three replication protocols
+MSG = Record("replmsg", {
+    "source": Str, "destination": Str, "key": Str, "value": Any, "seq": Int,
+    "ack_future": Ref(SimFuture), "reply_future": Ref(SimFuture),
+    "timestamp": Real, "writer_id": Str, "vector_clock": VC, "root_hash": Str})
+M = MSG.dt
+
+
+class CtxProxy:
+    """Event.context: only the 'metadata' entry is modelled ('id'/'created_at' are write-only here)"""
+
+    def __init__(self, loc):
+        self._loc = loc
+
+    def _md(self, k):
+        if k != "metadata":
+            raise OutOfReach(f"event context key {k!r} is not modelled in specs/C17.py")
+        return RecProxy(self._loc, MSG)
+
+    def get(self, k, default=None):
+        return self._md(k)
+
+    __getitem__ = _md
+
+    def setdefault(self, k, v=None):
+        return v if k in ("id", "created_at") else self._md(k)
+
+    def copy(self):
+        return CtxProxy(Box(self._loc.get()))
+
+    __hash__ = None
+
+
+class _CtxTy(Ty):
+    name = "EventContext"
+
+    def sort(self):
+        return MSG.sort()
+
+    def wrap(self, term, loc=None):
+        return CtxProxy(loc if loc is not None else Box(term))
+
+    def unwrap(self, v):
+        if isinstance(v, CtxProxy):
+            return v._loc.get()
+        if isinstance(v, dict) and set(v) <= {"id", "created_at", "metadata"}:
+            return MSG.unwrap(v.get("metadata", {}))
+        raise OutOfReach(f"{type(v).__name__} stored as event context")
+
+
+CTX = _CtxTy()
+cls(Event, fields={"context": CTX})          # overrides the opaque Map(Str, Any) typing of specs/common.py (this check only)
+
+
+def md(event, state=None):
+    """raw MSG term of an event's metadata"""
+    return field_term(event, "context", state)
+
+
+def mhas(m, *keys):
+    return mk_bool(z3.And(*[MSG.has(m, k) for k in keys]))
+
+
+def mget(m, k):
+    """wrapped field of a raw message term"""
+    return MSG.fields[k].wrap(MSG.acc(k)(m))
+
+
+def kt(k):
+    return k.t if hasattr(k, "t") else z3.StringVal(k)
+
+
+def has(d, k):
+    """k is a key of the symbolic dict / set d (no fork)"""
+    return mk_bool(z3.Select(d._ty.dt.dom(d.term), kt(k)))
+
+
+def mval(d, k):
+    """raw value term of d[k] (meaningful only where k is a key)"""
+    return z3.Select(d._ty.dt.val(d.term), kt(k))
+
+
+cls(Network, fields={})
+cls(SimFuture, fields={"_resolved": Bool, "_value": Any, "_parked_process": Any, "_parked_event_type": Any,
+                       "_parked_daemon": Bool, "_parked_target": Any, "_parked_on_complete": Any,
+                       "_parked_context": Any, "_settle_callbacks": Seq(Any)})
+# resolving a future is the acknowledgement the property speaks about; what must hold at that moment is stated
+# by ghost assertions placed before the call (see the handlers); the call itself settles the future
+stub_of(SimFuture, "resolve", modifies=["_resolved", "_value"], ensures=[lambda s: s.self._resolved])
+FUT_RESOLVE = (SimFuture, "resolve")
+
+# ---- KVStore generator API (kv_store.py is not an anchored file): wait the latency, then one atomic effect.
+# The one-yield stub lets the environment run during the latency; the effect applies to the resumed state.
+DATA = Map(Str, Any)
+
+
+def _data_dom(o):
+    return o._data._ty.dt.dom(o._data.term)
+
+
+def _data_val(o):
+    return o._data._ty.dt.val(o._data.term)
+
+
+KV_GET = stub_of(KVStore, "get", returns=Opt(Any), modifies=["_reads", "_hits", "_misses"], ensures=[
+    lambda s: Not(has(s.self._data, s.key)) if s.result is None else
+    (has(s.self._data, s.key) & mk_bool(s.result.t == mval(s.self._data, s.key)))])
+KV_GET.stub_yield = lambda s: s.self._read_latency
+KV_PUT = stub_of(KVStore, "put", modifies=["_data", "_insertion_order", "_writes"],
+                 requires=[("replica-store-unbounded", lambda s: s.self._capacity is None)], ensures=[
+    lambda s: mk_bool(_data_dom(s.self) == z3.Store(_data_dom(s.old(s.self)), kt(s.key), z3.BoolVal(True)))
+    & mk_bool(_data_val(s.self) == z3.Store(_data_val(s.old(s.self)), kt(s.key), s.value.t))])
+KV_PUT.stub_yield = lambda s: s.self._write_latency
+KV_PUT.returns_none_ok = True
+KV_API = [(KVStore, "get"), (KVStore, "put")]
+
+# ============================================================================ D. primary-backup: the backup
+from happysimulator.components.replication.primary_backup import PrimaryNode, BackupNode, ReplicationMode  # noqa: E402
+import happysimulator.components.replication.primary_backup as _pb_mod  # noqa: E402
+
+LATEST = Map(Str, Tuple(Int, Any))
+cls(BackupNode, fields={"_store": Ref(KVStore), "_network": Ref(Network), "_primary": Ref(Entity), "_serve_reads": Bool,
+                        "_replications_applied": Int, "_backup_reads": Int, "_last_applied_seq": Int,
+                        "_latest": LATEST},      # (_latest: newest accepted write per key - field of the repaired tree)
+    # ghost: the newest write received per key (seq, and the value it carried)
+    ghost={"g_seq": Map(Str, Int), "g_val": DATA},
+    const=["_store", "_network", "_primary", "_serve_reads"],
+    inv=[("accepted-keys-are-the-received-keys", lambda o: mk_bool(
+            o._latest._ty.dt.dom(o._latest.term) == o.g_seq._ty.dt.dom(o.g_seq.term))),
+         ("accepted-write-is-the-newest-received", lambda o: forall(Str, lambda k: implies(
+            has(o.g_seq, k), mk_bool(mval(o._latest, k) == LATEST.val.dt.mk(mval(o.g_seq, k), mval(o.g_val, k)))))),
+         ("sequence-numbers-positive", lambda o: forall(Str, lambda k: implies(has(o.g_seq, k), o.g_seq.get(k, 0) >= 1)))],
+    guarantee=[
+        ("newest-received-seq-per-key-only-grows", lambda old, new: forall(Str, lambda k:
+            new.g_seq.get(k, 0) >= old.g_seq.get(k, 0))),
+        ("last-applied-seq-only-grows", lambda old, new: new._last_applied_seq >= old._last_applied_seq),
+    ])
+
+
+def _backup_received(self, key, value, seq):
+    """ghost: a Replicate message (key, value, seq) has been received"""
+    if seq >= self.g_seq.get(key, 0):
+        self.g_seq[key] = seq
+        self.g_val[key] = value
+
+
+def _backup_put(self, key, value, seq):
+    """ghost assertion where a value is handed to the backup's store: it is the value of the newest write
+    received for the key - a reordered older write must not overwrite a newer one (convergence clause)"""
+    oblige("backup/store-receives-the-value-of-the-highest-seq-received-for-the-key",
+           has(self.g_seq, key) & mk_bool(value.t == mval(self.g_val, key)), kind="post")
+    _ctx.cur().ghost_args["c17_put"] = (value, self.g_seq.get(key, 0))
+
+
+def _backup_ack(self, key, value, seq):
+    """ghost assertion at the acknowledgement: the write (or a newer write to the same key) is applied here"""
+    put = _ctx.cur().ghost_args.get("c17_put")
+    oblige("backup/acknowledged-only-after-a-store-write-completed", put is not None, kind="post")
+    if put is None:
+        return
+    pval, pseq = put
+    st = self._store
+    oblige("backup/acknowledged-write-or-a-newer-one-is-applied-here",
+           has(st._data, key) & mk_bool(mval(st._data, key) == pval.t) & (pseq >= seq), kind="post")
+
+
+_pb_mod._c17_backup_received = _backup_received
+_pb_mod._c17_backup_put = _backup_put
+_pb_mod._c17_backup_ack = _backup_ack
+
+REPL_WF = ("replicate-message-carries-key-value-seq", lambda s: mhas(md(s.event), "key", "value", "seq")
+           & (mget(md(s.event), "seq") >= 1))
+UNBOUNDED = ("replica-store-unbounded", lambda s: s.self._store._capacity is None)
+# across a yield: the node's wiring is fixed and a message is not modified once it has been sent
+NODE_STABLE = [("Entity", "_clock"), ("Event", "context"), ("Event", "event_type"), ("Event", "target")]
+
+
+def _delay_ok(s, y):
+    """what a handler may yield: a non-negative delay, (delay, events), or a future"""
+    if isinstance(y, tuple):
+        return y[0] >= 0
+    if isinstance(y, ObjProxy):
+        return True
+    return y >= 0
+
+
+def _one_event_to(y, net, kind):
+    """y == (0.0, [e]) with e a message of type `kind` handed to the network now"""
+    if not isinstance(y, tuple) or len(y[1]) != 1:
+        return False
+    e = y[1][0]
+    return same(e.target, net) & (e.event_type == kind)
+
+
+def _backup_ack_event(s, y):
+    if not isinstance(y, tuple):
+        return True
+    e = y[1][0] if len(y[1]) == 1 else None
+    if e is None:
+        return False
+    m = md(e)
+    return (same(e.target, s.self._network) & (e.event_type == "ReplicationAck") & mhas(m, "source", "seq")
+            & (mget(m, "source") == s.self.name) & (mget(m, "seq") == mget(md(s.event), "seq")))
+
+
+fn(BackupNode, "_handle_replicate", args={"event": Ref(Event)}, uses=KV_API + [FUT_RESOLVE],
+   requires=[REPL_WF, UNBOUNDED], focus=lambda s: [s.self._store],
+   yields=Yields(at_yield=[("delay-nonnegative", _delay_ok),
+                           ("ack-message-names-this-backup-and-the-seq", _backup_ack_event)],
+                 stable=NODE_STABLE),
+   ensures=[("returns-nothing", lambda s: s.result is None)])
+
+
+def _resolved_values(fut=None):
+    """ghost call trace: the values passed to SimFuture.resolve on this path (optionally: for one future)"""
+    out = []
+    for q, vals, _r in _ctx.cur().ghost_args.get("trace", []):
+        if q == "SimFuture.resolve" and (fut is None or vals["self"]._ref.eq(fut._ref)):
+            out.append(vals["value"])
+    return out
+
+
+def _read_reply(s):
+    """a read replies (if asked to) with what the node's store holds for the key when the store read completes"""
+    m = md(s.event)
+    if not z3.is_true(z3.simplify(MSG.has(m, "reply_future"))) and not _ctx.cur().branch(MSG.has(m, "reply_future"), site="spec"):
+        return len(_resolved_values()) == 0
+    vals = _resolved_values(mget(m, "reply_future"))
+    if len(vals) != 1:
+        return False
+    v = vals[0]["value"]
+    st = s.self._store
+    key = mget(m, "key")
+    if v is None:
+        return Not(has(st._data, key))
+    return has(st._data, key) & mk_bool(v.t == mval(st._data, key))
+
+
+READ_WF = ("read-request-names-a-key", lambda s: mhas(md(s.event), "key"))
+fn(BackupNode, "_handle_read", args={"event": Ref(Event)}, uses=KV_API + [FUT_RESOLVE], requires=[READ_WF],
+   focus=lambda s: [s.self._store],
+   yields=Yields(at_yield=[("delay-nonnegative", _delay_ok)], stable=NODE_STABLE),
+   ensures=[("replies-with-the-stored-value", _read_reply),
+            ("store-untouched", lambda s: mk_bool(s.self._store._data.term == s.pre(s.self._store)._data.term))])
+
+# ============================================================================ E. primary-backup: the primary
+MODE = EnumTy(ReplicationMode)
+MAX_BACKUPS = 3        # configuration bound of this check (the handlers are unrolled over the backups)
+cls(PrimaryNode, fields={"_store": Ref(KVStore), "_backups": Seq(Ref(Entity)), "_network": Ref(Network), "_mode": MODE,
+                         "_seq": Int, "_backup_lag": Map(Str, Int), "_writes": Int, "_reads": Int,
+                         "_replications_sent": Int, "_acks_received": Int, "_write_latency_sum": Real},
+    const=["_store", "_backups", "_network", "_mode"],
+    inv=[("bounded-number-of-backups", lambda o: slen(o._backups) <= MAX_BACKUPS),
+         ("seq-nonneg", lambda o: o._seq >= 0)],
+    guarantee=[("sequence-numbers-only-grow", lambda old, new: new._seq >= old._seq)])
+
+
+class _NewFuture:
+    """return type of the combinator stubs: a freshly allocated future"""
+    name = "new SimFuture"
+
+    def fresh(self, base):
+        return new_object(SimFuture)
+
+
+def _combinator(kind):
+    def record(s):
+        _ctx.cur().ghost_args.setdefault("c17_comb", {})[s.result._ref.get_id()] = (kind, list(s.futures))
+        return True
+    return record
+
+
+# C02's combinator contracts (assumed here): all_of / any_of return a new future standing for its parts
+stub_of(_pb_mod.__name__, "all_of", returns=_NewFuture(), ensures=[_combinator("all")])
+stub_of("happysimulator.core.sim_future", "any_of", returns=_NewFuture(), ensures=[_combinator("any")])
+COMBINATORS = [(_pb_mod.__name__, "all_of"), ("happysimulator.core.sim_future", "any_of")]
+
+
+def _future_rely(s, before, y):
+    """engine contract of yielding a future (C02): the process is resumed only after the future is resolved;
+    an all_of future resolves only when every part has, an any_of future only when some part has"""
+    if not isinstance(y, ObjProxy):
+        return True
+    r = y._resolved
+    comb = _ctx.cur().ghost_args.get("c17_comb", {}).get(y._ref.get_id())
+    if comb is not None:
+        kind, parts = comb
+        rs = [p._resolved for p in parts]
+        r = r & (sym_and(*rs) if kind == "all" else sym_or(*rs))
+    return r
+
+
+def _future_resume(s, y):
+    comb = _ctx.cur().ghost_args.get("c17_comb", {}).get(y._ref.get_id()) if isinstance(y, ObjProxy) else None
+    if comb is not None and comb[0] == "any":
+        return (Int.fresh("any_idx"), Any.fresh("any_val"))
+    return None
+
+
+def _backup_list(o):
+    return [b for b in o._backups]      # (length <= MAX_BACKUPS: the iteration forks on the length)
+
+
+def _replicate_messages(s, y):
+    """(0.0, events): exactly one Replicate message per backup, in order, each carrying this write's key, value and
+    sequence number and - in the acknowledged modes - its own fresh ack future.  Recorded for the reply check."""
+    if not isinstance(y, tuple):
+        return True
+    evs = y[1]
+    bks = _backup_list(s.self)
+    if len(evs) != len(bks):
+        return False
+    req = md(s.event)
+    mode = s.self._mode
+    ok = True
+    sent = []
+    for e, b in zip(evs, bks):
+        m = md(e)
+        ok = ok & same(e.target, s.self._network) & (e.event_type == "Replicate") & mhas(m, "source", "destination", "key", "value", "seq")
+        ok = ok & (mget(m, "destination") == b.name) & (mget(m, "key") == mget(req, "key")) \
+            & mk_bool(MSG.acc("value")(m) == MSG.acc("value")(req)) & (mget(m, "seq") >= 1) & (mget(m, "seq") <= s.self._seq)
+        if mode is not ReplicationMode.ASYNC:
+            ok = ok & mhas(m, "ack_future")
+            a = mget(m, "ack_future")
+            ok = ok & Not(a._resolved)
+            for (_b2, a2) in sent:
+                ok = ok & Not(same(a, a2))
+            sent.append((b, a))
+    _ctx.cur().ghost_args["c17_sent"] = sent
+    return ok
+
+
+def _primary_reply(self, key, value, seq):
+    """ghost assertion where the client's write is acknowledged (reply_future.resolve):
+    SYNC: every backup was sent this write and has acknowledged it; SEMI_SYNC: at least one has"""
+    mode = self._mode
+    bks = _backup_list(self)
+    sent = _ctx.cur().ghost_args.get("c17_sent")
+    if mode is ReplicationMode.ASYNC:
+        return
+    if sent is None:
+        oblige("primary/acknowledged-only-after-replicating-to-the-backups", len(bks) == 0, kind="post")
+        return
+    oblige("primary/every-backup-was-sent-the-write", len(sent) == len(bks), kind="post")
+    rs = [a._resolved for (_b, a) in sent]
+    if mode is ReplicationMode.SYNC:
+        oblige("primary/sync-write-acknowledged-only-after-every-backup-acknowledged", sym_and(*rs), kind="post")
+    else:
+        oblige("primary/semi-sync-write-acknowledged-only-after-some-backup-acknowledged",
+               sym_or(*rs) if rs else True, kind="post")
+
+
+_pb_mod._c17_primary_reply = _primary_reply
+
+WRITE_WF = ("write-request-carries-key-and-value", lambda s: mhas(md(s.event), "key", "value"))
+fn(PrimaryNode, "_handle_write", args={"event": Ref(Event)}, uses=KV_API + [FUT_RESOLVE] + COMBINATORS,
+   requires=[WRITE_WF, UNBOUNDED], focus=lambda s: [s.self._store],
+   yields=Yields(at_yield=[("delay-nonnegative", _delay_ok),
+                           ("one-replicate-message-per-backup-carrying-the-write", _replicate_messages)],
+                 rely=[_future_rely], resume=_future_resume, stable=NODE_STABLE),
+   ensures=[("returns-nothing", lambda s: s.result is None)])
